@@ -28,6 +28,7 @@ type Term struct {
 	E   string
 	Vec []Term // SStr only: byte-vector representation (concrete length); nil otherwise
 	IsV bool   // SStr: Vec representation in use (Vec may be empty, len 0)
+	Cat []Term // SStr symbolic: flattened concatenation pieces (each concrete or atomic)
 }
 
 func mask(w int) uint64 {
@@ -624,7 +625,27 @@ func strConcat(a, b Term) Term {
 	if b.C && b.Str == "" {
 		return a
 	}
-	return symStr("(str.++ " + a.smt() + " " + b.smt() + ")")
+	flat := func(t Term) []Term {
+		if len(t.Cat) > 0 {
+			return t.Cat
+		}
+		return []Term{t}
+	}
+	var pieces []Term
+	for _, p := range append(append([]Term{}, flat(a)...), flat(b)...) {
+		if p.C && len(pieces) > 0 && pieces[len(pieces)-1].C {
+			pieces[len(pieces)-1] = mkStr(pieces[len(pieces)-1].Str + p.Str)
+			continue
+		}
+		pieces = append(pieces, p)
+	}
+	parts := make([]string, len(pieces))
+	for i, p := range pieces {
+		parts[i] = p.smt()
+	}
+	r := symStr("(str.++ " + strings.Join(parts, " ") + ")")
+	r.Cat = pieces
+	return r
 }
 
 func strHasPrefix(s, p Term) Term {
